@@ -227,6 +227,23 @@ def matern52Cor (h : α) : α :=
 /-- Matern `nu > 20`: the code switches to `np.exp(-((h / 2.0) ** 2))` -/
 def maternLimitCor (h : α) : α := exp (-(npow (fabs h / ((2:Nat):α)) 2))
 
+/-! Matern at EVERY half-integer order `nu = p + 1/2` (wave 6): the modified Bessel function of half-integer order is
+elementary, `2^(1-nu)/Γ(nu) x^nu K_nu(x) = exp(-x) · p!/(2p)! · Σ_{i=0}^{p} (p+i)!/(i!(p-i)!) (2x)^(p-i)` with
+`x = sqrt(nu) |h|`.  The coefficients are natural numbers of unbounded size (`(2p)!` exceeds 2^63 from `p = 11` on); the
+model keeps them in `Nat` and evaluates the sum by Horner's rule. -/
+def fact : Nat → Nat
+  | 0 => 1
+  | n + 1 => (n + 1) * fact n
+/-- `(p+i)! / (i! (p-i)!)` (the division is exact) -/
+def maternHalfCoef (p i : Nat) : Nat := fact (p + i) / (fact i * fact (p - i))
+/-- `Σ_{i=0}^{p} coef(p,i) y^(p-i)` by Horner's rule -/
+def maternHalfSum (p : Nat) (y : α) : α :=
+  (List.range (p + 1)).foldl (fun acc i => acc * y + ((maternHalfCoef p i : Nat) : α)) ((0:Nat):α)
+/-- Matern `nu = p + 1/2` -/
+def maternHalfCor (p : Nat) (h : α) : α :=
+  let x := sqrt (((2 * p + 1 : Nat) : α) / ((2:Nat):α)) * fabs h
+  exp (-x) * (((fact p : Nat) : α) / ((fact (2 * p) : Nat) : α)) * maternHalfSum p (((2:Nat):α) * x)
+
 /-- JBessel `nu = 1/2`: `Γ(3/2) J_{1/2}(h) / (h/2)^{1/2} = sin h / h`; `1` where `isclose(h, 0)` -/
 def jbessel12Cor (h : α) : α := if isclose0 h then ((1:Nat):α) else sin h / h
 /-- JBessel `nu = 3/2`: `3 (sin h - h cos h) / h³` -/
@@ -511,6 +528,41 @@ def mstep (ci : Nat → α → α) (st : MState α) : MOp α → MState α
 
 def mrun (ci : Nat → α → α) (st : MState α) (ops : List (MOp α)) : MState α := ops.foldl (mstep ci) st
 
+/-! ### list-valued scale arguments (wave 6)
+
+`len_scale` and `integral_scale` are documented as "float or list".  A list goes through `set_len_anis`: it is cut to
+the model dimension, padded with its LAST value when too short, its first entry becomes the main scale and the
+anisotropy ratios are recomputed as `x_k / x_0` (a single value keeps the stored ratios).  The `integral_scale` setter
+first assigns the given value to `len_scale` ("format int-scale right" — this is where a list turns into ratios), then
+prescribes the main value as in `setIntegralScale`. -/
+
+/-- first `n` entries of `xs`, padded with the last value seen (`last` when `xs` is empty) -/
+def padLast : Nat → α → List α → List α
+  | 0, _, _ => []
+  | n + 1, last, [] => last :: padLast n last []
+  | n + 1, _, x :: xs => x :: padLast n x xs
+
+/-- per-axis scales a list prescribes in dimension `dim` (`[x0, x1]` in 3-D is `[x0, x1, x1]`) -/
+def axisScales (dim : Nat) : List α → List α
+  | [] => []
+  | x0 :: rest => x0 :: padLast (dim - 1) x0 rest
+
+/-- `model.len_scale = xs` (a list; also the `len_scale=` constructor argument) -/
+def setLenScaleList (st : MState α) (xs : List α) : MState α :=
+  match xs.take st.dim with
+  | [] => st
+  | [x] => { st with par := { st.par with lenScale := x } }
+  | x0 :: x1 :: rest =>
+    { st with par := { st.par with lenScale := x0 }, anis := (padLast (st.dim - 1) x0 (x1 :: rest)).map fun x => x / x0 }
+
+/-- `model.integral_scale = Is` (a list; also the `integral_scale=` constructor argument) -/
+def setIntegralScaleList (ci : Nat → α → α) (st : MState α) (Is : List α) : MState α :=
+  let st1 := setLenScaleList st Is
+  mstep ci st1 (.setIntegralScale st1.par.lenScale)
+
+/-- `len_scale_vec`: `[l, l * anis[0], l * anis[1]]` -/
+def lenScaleVec (st : MState α) : List α := st.par.lenScale :: st.anis.map fun a => st.par.lenScale * a
+
 /-! ### percentile scale
 
 `tools.percentile_scale(model, per)` hands the curve `1 - correlation(x) - per` to a root finder started at
@@ -561,6 +613,7 @@ def kernelByName (name : String) (dim n : Nat) (a : Float) : Option (Float → F
   | "Matern32" => some matern32Cor
   | "Matern52" => some matern52Cor
   | "MaternLimit" => some maternLimitCor
+  | "MaternHalf" => some (maternHalfCor n)
   | "JBessel12" => some jbessel12Cor
   | "JBessel32" => some jbessel32Cor
   | _ => none
@@ -817,6 +870,17 @@ def ops (op : String) (j : Json) : Option (Except String Json) :=
         | some h => pure (percentileScale st.par h)
         | none => throw s!"no percentile model for {name}"
       return fl ([lenRescaled st.par] ++ out))
+  /- list-valued len_scale / integral_scale on a model with stored anisotropy ratios: len_scale, anis, len_scale_vec, integral_scale_vec -/
+  | "covfn_list_scale" => some (do
+      let name ← getStr j "kernel"
+      let p ← getPar j
+      let st0 : MState Float := { par := p, dim := ← getNat j "dim", shape := optFloat j "a" 1.0, anis := optFloats j "anis" }
+      let ci : Nat → Float → Float := fun d a => (corIntegralShape name d a).getD (0.0 / 0.0)
+      let xs := optFloats j "list"
+      let st := match ← getStr j "what" with
+        | "len_scale" => setLenScaleList st0 xs
+        | _ => setIntegralScaleList ci st0 xs
+      return fl ([st.par.lenScale] ++ st.anis ++ lenScaleVec st ++ reportedISVec ci st ++ axisScales st0.dim xs))
   | "covfn_default_rescale" => some (do
       let name ← getStr j "kernel"
       return fl [if name == "Gaussian" then gaussianRescale else 1.0])
